@@ -19,7 +19,7 @@ func init() {
 		Title: "Built-in operators decide exactly their documented predicates",
 		Explanation: "Decides structural agreement between operators, not the predicates themselves: R1 capture bound agreement: every loop that stores captures stores a value for every index it visits (a group that did not participate is stored as empty, never skipped) stops after index 9, and is left only when the matches are exhausted or ten captures are stored (the bound constant extracted from each loop's exit test is 10 everywhere), so TX.0-9 are filled alike by @rx, binary @rx, @pm and @validateNid; " +
 			"R2 macro re-expansion: every operator holding a macro argument expands it with the transaction inside Evaluate and never at construction, and keeps no expanded copy; R3 single negation point (C01.R3 re-applied); R4 look-ahead and fixed-position reads in the operators are length-guarded (A9 shapes); " +
-			"R5 the @pm family builds its matcher and its minimum-length shortcut from the same phrase list, the matcher is ASCII-case-insensitive, and the minimum-length test can only reject; R6 @ipMatch gives a bare address the host mask of its family: /32 only when the entry contains no ':' (path query with infeasible-branch pruning), /128 only when it does; R7 the numeric comparisons (@eq @ge @gt @le @lt) are siblings: each returns one comparison of the same two parsed numbers (input and expanded argument, parsed by the same function with the same error handling), so they differ only in the comparison operator; R8 a rune obtained by ranging over the input is never narrowed to a byte without a bound (bytes are examined as bytes); R2 also: every return of a macro-argument operator's Evaluate follows the expansion (nothing is decided from the argument text as written).",
+			"R5 the @pm family builds its matcher and its minimum-length shortcut from the same phrase list, the matcher is ASCII-case-insensitive, and the minimum-length test can only reject; R6 @ipMatch gives a bare address the host mask of its family: /32 only when the entry contains no ':' (path query with infeasible-branch pruning), /128 only when it does; R7 the numeric comparisons (@eq @ge @gt @le @lt) are siblings: each returns one comparison of the same two parsed numbers (input and expanded argument, parsed by the same function with the same error handling), so they differ only in the comparison operator; R8 a rune obtained by ranging over the input is never narrowed to a byte without a bound (bytes are examined as bytes); R2 also: every return of a macro-argument operator's Evaluate follows the expansion (nothing is decided from the argument text as written). R7 also: @within, @contains, @strmatch, @beginsWith, @endsWith and @streq return their library predicate over (value, expanded argument) on every path, operands in the documented order; R8 also: character class tests are inclusive at their boundary characters and width tests cover the whole class.",
 		NotDecided: []string{
 			"every predicate itself (substring search, CIDR membership, byte ranges, UTF-8 validation, RE2 semantics)",
 			"numeric parsing leniency of the comparison operators (non-numeric text counts as 0)",
@@ -351,6 +351,71 @@ func runC15(c *an.Ctx) {
 		})
 	}
 	c.OkTrivial("R8", "comparisons with utf8.RuneSelf in the byte-oriented packages", token.NoPos, fmt.Sprintf("%d sites", nB))
+	// the boundaries of the character classes (digits, octal digits, hex letters, letters) are inclusive: every
+	// class test of these packages is `lo <= c && c <= hi`.  A strict comparison at a boundary constant (c < 'z',
+	// c > 'a') or a width one short of the class (c-'a' < 25) leaves the boundary character out of the class:
+	// 'z' is not upper-cased, '9' is not a digit.
+	nC := 0
+	upperB := map[int64]string{'9': "'9'", '7': "'7'", 'z': "'z'", 'Z': "'Z'", 'f': "'f'", 'F': "'F'"}
+	lowerB := map[int64]string{'0': "'0'", 'a': "'a'", 'A': "'A'"}
+	for _, fn := range c.P.ModFuncs {
+		if rp := relPkg(fn); rp != "internal/operators" && rp != "internal/transformations" && rp != "internal/strings" && rp != "internal/url" {
+			continue
+		}
+		an.Instrs(fn, func(in ssa.Instruction) {
+			b, ok := in.(*ssa.BinOp)
+			if !ok {
+				return
+			}
+			op := b.Op.String()
+			if op != "<" && op != ">" && op != "<=" && op != ">=" {
+				return
+			}
+			x, ky, isY := b.X, int64(0), false
+			if k, ok := an.ConstInt(b.Y); ok {
+				ky, isY = k, true
+			} else if k, ok := an.ConstInt(b.X); ok {
+				x, ky, isY = b.Y, k, true
+				op = map[string]string{"<": ">", ">": "<", "<=": ">=", ">=": "<="}[op]
+			}
+			if !isY {
+				return
+			}
+			// only byte / rune / small-int operands that look like characters: the other operand must not be a length
+			if bt, ok := x.Type().Underlying().(*types.Basic); !ok || bt.Info()&types.IsInteger == 0 || strings.HasPrefix(an.Expr(x), "len(") {
+				return
+			}
+			// width form: (c - 'a') < 26
+			if sub, ok := x.(*ssa.BinOp); ok && sub.Op == token.SUB {
+				if base, ok := an.ConstInt(sub.Y); ok && lowerB[base] != "" {
+					nC++
+					width := map[int64][]int64{'a': {26, 6}, 'A': {26, 6}, '0': {10, 8}}[base]
+					for _, w := range width {
+						if op == "<" && ky == w-1 || op == "<=" && ky == w {
+							c.Bad("R8", "character class width in "+an.RelName(fn), in.Pos(), fmt.Sprintf("(c - %s) %s %d covers %d characters, one %s than the class has: its last character is left out (or the one after it let in)", lowerB[base], op, ky, map[string]int64{"<": ky, "<=": ky + 1}[op], map[bool]string{true: "fewer", false: "more"}[op == "<"]))
+						}
+					}
+				}
+				return
+			}
+			if bt, ok := x.Type().Underlying().(*types.Basic); !ok || (bt.Kind() != types.Uint8 && bt.Kind() != types.Int32) {
+				return
+			}
+			switch {
+			case upperB[ky] != "":
+				nC++
+				if op == "<" {
+					c.Bad("R8", "character class boundary in "+an.RelName(fn), in.Pos(), "c < "+upperB[ky]+" leaves "+upperB[ky]+" itself out of the class (every class test of these packages is inclusive: c <= "+upperB[ky]+")")
+				}
+			case lowerB[ky] != "":
+				nC++
+				if op == ">" {
+					c.Bad("R8", "character class boundary in "+an.RelName(fn), in.Pos(), "c > "+lowerB[ky]+" leaves "+lowerB[ky]+" itself out of the class (every class test of these packages is inclusive: c >= "+lowerB[ky]+")")
+				}
+			}
+		})
+	}
+	c.MinCount("R8", "character class boundary tests in the byte-oriented packages", nC, 20)
 	// @pmFromFile: the line that is tested (blank? comment?) is the line that becomes a phrase — trimmed once, before
 	// the tests (otherwise a whitespace-only line becomes the empty phrase, which matches everything)
 	if pf := c.FnOpt("internal/operators.newPMFromFile"); pf != nil {
@@ -381,6 +446,9 @@ func runC15(c *an.Ctx) {
 		c.Check(ok, "R5", "@pmFromFile tests and stores the same trimmed line", pf.Pos(), strings.Join(appended, ","),
 			"the phrase stored ("+strings.Join(appended, ",")+") is not the value whose emptiness was tested ("+strings.Join(tested, ",")+"): a line of blanks passes the blank-line test untrimmed and is then stored as the empty phrase, which occurs in every input")
 	}
+
+	// ---- R7 (cont.) the string operators are the library predicate and nothing else
+	c15StringSiblings(c)
 
 	// ---- R6 @ipMatch masks
 	if im := c.Fn("R6", "internal/operators.newIPMatch"); im != nil {
@@ -595,4 +663,80 @@ func exactAtom(f an.Facts, e string) bool {
 
 var runeToByteAllow = map[string]string{
 	"internal/operators.matchesArbitraryBytes": "the rune comes from strconv.UnquoteChar on a \\xNN escape with multibyte == false (tested on the line above), which yields a single byte value",
+}
+
+// c15StringSiblings: @within, @contains, @strmatch, @beginsWith, @endsWith and @streq are each documented as one
+// string predicate over (inspected value, expanded argument).  Their Evaluate methods return that predicate on
+// every path: a "cheap rejection" in front of it (empty input, length comparison) changes the answer on exactly
+// the inputs where the predicate is true trivially ("" is contained in everything).  Table: operator type ->
+// predicate and operand order.
+func c15StringSiblings(c *an.Ctx) {
+	type spec struct{ pred, first string } // first: which operand comes first, "value" or "arg"
+	table := map[string]spec{
+		"within":     {"strings.Contains", "arg"},
+		"contains":   {"strings.Contains", "value"},
+		"strmatch":   {"strings.Contains", "value"},
+		"beginsWith": {"strings.HasPrefix", "value"},
+		"endsWith":   {"strings.HasSuffix", "value"},
+		"streq":      {"==", ""},
+	}
+	n := 0
+	for _, tn := range sortedKeys(table) {
+		sp := table[tn]
+		fn := c.P.Func("internal/operators.(*" + tn + ").Evaluate")
+		if fn == nil || len(fn.Params) < 3 {
+			continue
+		}
+		n++
+		c.FuncsAnalysed[fn] = true
+		value := ssa.Value(fn.Params[2])
+		isArg := func(v ssa.Value) bool {
+			cc, ok := v.(*ssa.Call)
+			return ok && cc.Call.IsInvoke() && cc.Call.Method.Name() == "Expand"
+		}
+		okAll, why := true, ""
+		nRet := 0
+		an.Instrs(fn, func(in ssa.Instruction) {
+			r, ok := in.(*ssa.Return)
+			if !ok || len(r.Results) != 1 {
+				return
+			}
+			nRet++
+			var leaves []ssa.Value
+			var walk func(v ssa.Value, d int)
+			walk = func(v ssa.Value, d int) {
+				if phi, ok := v.(*ssa.Phi); ok && d < 4 {
+					for _, e := range phi.Edges {
+						walk(e, d+1)
+					}
+					return
+				}
+				leaves = append(leaves, v)
+			}
+			walk(r.Results[0], 0)
+			for _, lf := range leaves {
+				switch x := lf.(type) {
+				case *ssa.Call:
+					sc := x.Call.StaticCallee()
+					if sc == nil || sc.Pkg == nil || sc.Pkg.Pkg.Path()+"."+sc.Name() != sp.pred || len(x.Call.Args) != 2 {
+						okAll, why = false, "returns "+tempName.ReplaceAllString(an.Expr(lf), "")
+						continue
+					}
+					a0, a1 := x.Call.Args[0], x.Call.Args[1]
+					if sp.first == "value" && !(a0 == value && isArg(a1)) || sp.first == "arg" && !(isArg(a0) && a1 == value) {
+						okAll, why = false, "operands of "+sp.pred+" are ("+tempName.ReplaceAllString(an.Expr(a0), "")+", "+tempName.ReplaceAllString(an.Expr(a1), "")+")"
+					}
+				case *ssa.BinOp:
+					if sp.pred != "==" || x.Op != token.EQL || !(x.X == value && isArg(x.Y) || x.Y == value && isArg(x.X)) {
+						okAll, why = false, "returns "+tempName.ReplaceAllString(an.Expr(lf), "")
+					}
+				default:
+					okAll, why = false, "returns "+tempName.ReplaceAllString(an.Expr(lf), "")+" under "+shortFacts(an.FactsAtBlock(r.Block()))
+				}
+			}
+		})
+		c.Check(okAll && nRet >= 1, "R7", "@"+tn+" answers with its documented predicate on every path", fn.Pos(), sp.pred+" over the inspected value and the expanded argument",
+			"@"+tn+" does not simply return "+sp.pred+" of (value, expanded argument): "+why+" — on those inputs the operator disagrees with its documented predicate (\"\" is a substring, prefix and suffix of every string)")
+	}
+	c.MinCount("R7", "plain string operators", n, 6)
 }
